@@ -20,11 +20,6 @@ struct Setting {
   int maxdepth; // <0: unbounded (complete reachable set)
 };
 
-struct Decoded {
-  uint64_t imin, imax, cur;
-  double c0, c1;
-};
-
 static std::string g_tmp;
 
 static std::string dump(const TimeLine &t) {
@@ -41,19 +36,10 @@ static TimeLine restore(const std::string &bytes) {
   RestartReader r(g_tmp);
   return TimeLine(r);
 }
-static Decoded decode(const std::string &b) {
-  Decoded d;
-  memcpy(&d.imin, b.data(), 8);
-  memcpy(&d.imax, b.data() + 8, 8);
-  memcpy(&d.c0, b.data() + 16, 8);
-  memcpy(&d.c1, b.data() + 24, 8);
-  memcpy(&d.cur, b.data() + 32, 8);
-  return d;
-}
-static bool pow2(uint64_t x) { return x && !(x & (x - 1)); }
 
 struct Node {
   TimeLine live;
+  uint64_t units; // exact elapsed time in units of total/2^63, accumulated from the REPORTED steps
   int depth;
   double phys_time;  // physical time reported when this state was reached
   double phys_sum;   // sum of reported actual steps along the BFS tree path
@@ -65,65 +51,69 @@ static std::string setting_str(const Setting &s) {
   return fmt("start=%a end=%a min=%a max=%a", s.start, s.end, s.tmin, s.tmax);
 }
 
+/// physical size of the smallest step the time line may take: the largest
+/// power-of-two fraction of the total interval that is <= the configured
+/// minimum (total/2^63 without a minimum)
+static double minimum_step(const Setting &S, int &jmin) {
+  const double total = S.end - S.start;
+  jmin = 63;
+  if (S.tmin > 0.) {
+    jmin = 0;
+    while (jmin < 63 && std::ldexp(total, -jmin) > S.tmin)
+      ++jmin;
+  }
+  return std::ldexp(total, -jmin);
+}
+
 static void explore(const Setting &S, const std::vector< double > &reqs, Result &R,
                     uint64_t &states_total, uint64_t &trans_total, uint64_t &refmodel_diff) {
   const double total = S.end - S.start;
   const double eps = DBL_EPSILON;
+  const double ttol = 4. * eps * (std::fabs(S.start) + std::fabs(S.end));
+  int jmin;
+  const double minphys = minimum_step(S, jmin);
+  // largest step: the largest power-of-two fraction <= the configured maximum, but not below the minimum
+  int jmax = 0;
+  if (S.tmax > 0.)
+    while (jmax < 63 && std::ldexp(total, -jmax) > S.tmax)
+      ++jmax;
+  if (jmax > jmin)
+    jmax = jmin;
   TimeLine t0(S.start, S.end, S.tmin, S.tmax);
   std::string b0 = dump(t0);
-  if (b0.size() != 40) {
-    R.violation("C19:dump-size", fmt("restart image of TimeLine has %zu bytes", b0.size()));
-    return;
-  }
   std::map< std::string, Node > seen;
   std::deque< std::string > frontier;
-  seen.emplace(b0, Node{t0, 0, S.start, 0., 0, ""});
+  seen.emplace(b0, Node{t0, 0, 0, S.start, 0., 0, ""});
   frontier.push_back(b0);
-  const Decoded d0 = decode(b0);
-  // configured limits must be respected by the integer limits
-  if (!pow2(d0.imin) || !pow2(d0.imax) || d0.imax < d0.imin)
-    R.violation("C19:limits:" + setting_str(S), fmt("imin=%" PRIu64 " imax=%" PRIu64, d0.imin, d0.imax));
   uint64_t nterminal = 0;
+  const std::string tag = setting_str(S);
   while (!frontier.empty()) {
     if (R.out_of_time()) {
-      R.hit_deadline("timeline " + setting_str(S));
+      R.hit_deadline("timeline " + tag);
       break;
     }
     std::string key = frontier.front();
     frontier.pop_front();
     Node node = seen.at(key);
-    const Decoded d = decode(key);
     ++states_total;
-    // save/restore: restored object writes the same bytes
+    // save/restore: the restored object writes the same bytes
     TimeLine restored = restore(key);
     std::string again = dump(restored);
     ++R.evaluations;
     if (again != key)
-      R.violation("C19:redump:" + setting_str(S),
-                  "dump->restore->dump changes bytes after history [" + node.history + "]",
-                  fmt("{\"setting\": \"%s\", \"history\": \"%s\"}", setting_str(S).c_str(),
-                      node.history.c_str()));
-    if (d.cur == FULL) {
+      R.violation("C19:redump:" + tag, "dump->restore->dump changes bytes after history [" + node.history + "]",
+                  fmt("{\"setting\": \"%s\", \"history\": \"%s\"}", tag.c_str(), node.history.c_str()));
+    if (node.units == FULL) {
       ++nterminal;
-      // exact landing on the integer end, physical end within round-off
-      const double tol = 4. * eps * (std::fabs(S.start) + std::fabs(S.end));
-      if (std::fabs(node.phys_time - S.end) > tol)
-        R.violation("C19:end-time:" + setting_str(S),
-                    fmt("final time %.17g != end %.17g after [%s]", node.phys_time, S.end,
-                        node.history.c_str()));
+      if (std::fabs(node.phys_time - S.end) > ttol)
+        R.violation("C19:end-time:" + tag, fmt("final time %.17g != end %.17g after [%s]", node.phys_time, S.end, node.history.c_str()));
       if (std::fabs(node.phys_sum - total) > (node.nsteps + 2) * eps * std::fabs(total))
-        R.violation("C19:sum:" + setting_str(S),
-                    fmt("steps sum to %.17g, total %.17g after [%s]", node.phys_sum, total,
-                        node.history.c_str()));
+        R.violation("C19:sum:" + tag, fmt("steps sum to %.17g, total %.17g after [%s]", node.phys_sum, total, node.history.c_str()));
       continue; // the caller never advances a finished time line
-    }
-    if (d.cur > FULL) {
-      R.violation("C19:overshoot:" + setting_str(S),
-                  fmt("integer time %" PRIu64 " beyond the end after [%s]", d.cur, node.history.c_str()));
-      continue;
     }
     if (S.maxdepth >= 0 && node.depth >= S.maxdepth)
       continue;
+    const uint64_t left = FULL - node.units;
     for (size_t ir = 0; ir < reqs.size(); ++ir) {
       const double r = reqs[ir];
       TimeLine a = node.live;
@@ -136,80 +126,76 @@ static void explore(const Setting &S, const std::vector< double > &reqs, Result 
       ++trans_total;
       ++R.evaluations;
       const std::string hist = node.history + (node.history.empty() ? "" : ",") + hexd(r);
-      const std::string rep = fmt("{\"setting\": \"%s\", \"history\": \"%s\"}", setting_str(S).c_str(), hist.c_str());
-      const std::string tag = setting_str(S);
+      const std::string rep = fmt("{\"setting\": \"%s\", \"history\": \"%s\"}", tag.c_str(), hist.c_str());
       if (has_next != has_next2 || actual != actual2 || current != current2 || nb != nb2)
         R.violation("C19:restore-bisim:" + tag, "restored time line behaves differently after [" + hist + "]", rep);
-      const Decoded n = decode(nb);
-      if (n.imin != d.imin || n.imax != d.imax || n.c0 != d.c0 || n.c1 != d.c1)
-        R.violation("C19:config-changed:" + tag, "advance changed the configuration after [" + hist + "]", rep);
-      const double minphys = d.c0 * (double)d.imin;
-      if (n.cur == d.cur) {
-        // refused: must stop the run, and only for a request below the
-        // (rounded) minimum step
+      if (nb == key) {
+        // no step taken: the run must stop, and only for a request below the minimum step
         if (has_next)
           R.violation("C19:refuse-continues:" + tag, "no step taken but has_next after [" + hist + "]", rep);
         if (!(r < minphys))
-          R.violation("C19:refuse-legit:" + tag,
-                      fmt("request %.17g >= minimum %.17g refused after [%s]", r, minphys, hist.c_str()), rep);
+          R.violation("C19:refuse-legit:" + tag, fmt("request %.17g >= minimum step %.17g refused after [%s]", r, minphys, hist.c_str()), rep);
         continue;
       }
       R.nontrivial++;
-      if (n.cur < d.cur) {
-        R.violation("C19:backwards:" + tag, "integer time decreased after [" + hist + "]", rep);
+      // the reported step must be a power-of-two fraction of the total interval
+      int e = 0;
+      const double q = total / actual;
+      const bool isp2 = actual > 0. && std::frexp(q, &e) == 0.5 && e - 1 >= 0 && e - 1 <= 63;
+      if (!isp2) {
+        R.violation("C19:fraction:" + tag, fmt("step %.17g is not a power-of-two fraction of the total %.17g after [%s]", actual, total, hist.c_str()), rep);
         continue;
       }
-      const uint64_t dt = n.cur - d.cur;
-      const uint64_t left = FULL - d.cur;
-      if (!pow2(dt))
-        R.violation("C19:pow2:" + tag, fmt("step %" PRIu64 " is not a power of two after [%s]", dt, hist.c_str()), rep);
-      else if (left % dt)
-        R.violation("C19:divides:" + tag, fmt("step %" PRIu64 " does not divide remaining %" PRIu64 " after [%s]", dt, left, hist.c_str()), rep);
-      if (n.cur > FULL)
-        R.violation("C19:overshoot:" + tag, "step beyond the end after [" + hist + "]", rep);
-      if (dt < d.imin)
-        R.violation("C19:below-min:" + tag, fmt("step %" PRIu64 " below minimum %" PRIu64 " after [%s]", dt, d.imin, hist.c_str()), rep);
+      const int j = e - 1;
+      const uint64_t dt = 1ull << (63 - j);
+      if (left % dt)
+        R.violation("C19:divides:" + tag, fmt("step total/2^%d does not divide the time left (%" PRIu64 "/2^63 of the total) after [%s]", j, left, hist.c_str()), rep);
+      if (dt > left) {
+        R.violation("C19:overshoot:" + tag, fmt("step total/2^%d with only %" PRIu64 "/2^63 of the total left after [%s]", j, left, hist.c_str()), rep);
+        continue;
+      }
+      if (j > jmin)
+        R.violation("C19:below-min:" + tag, fmt("step total/2^%d below the minimum total/2^%d after [%s]", j, jmin, hist.c_str()), rep);
       if (!(actual <= r))
         R.violation("C19:exceeds-request:" + tag, fmt("actual %.17g > requested %.17g after [%s]", actual, r, hist.c_str()), rep);
-      if (S.tmax > 0. && !(actual <= S.tmax) && dt > d.imin)
+      if (S.tmax > 0. && j < jmax)
         R.violation("C19:exceeds-max:" + tag, fmt("actual %.17g > maximum %.17g after [%s]", actual, S.tmax, hist.c_str()), rep);
-      if (actual != d.c0 * (double)dt)
-        R.violation("C19:actual-mismatch:" + tag, fmt("reported step %.17g but the clock moved %.17g after [%s]", actual, d.c0 * (double)dt, hist.c_str()), rep);
-      // power-of-two fraction of the total interval
-      {
-        int e;
-        const double q = total / actual;
-        if (!(std::frexp(q, &e) == 0.5))
-          R.violation("C19:fraction:" + tag, fmt("total/actual = %.17g is not a power of two after [%s]", q, hist.c_str()), rep);
-      }
+      const uint64_t units = node.units + dt;
+      // the reported time is the start plus the steps reported so far
+      const double expect = S.start + total * ((double)units / 9223372036854775808.);
+      if (std::fabs(current - expect) > ttol + 2. * eps * std::fabs(total))
+        R.violation("C19:time-mismatch:" + tag, fmt("reported time %.17g but the reported steps add up to %.17g after [%s]", current, expect, hist.c_str()), rep);
       if (!(current > node.phys_time))
         R.violation("C19:not-increasing:" + tag, fmt("time %.17g -> %.17g after [%s]", node.phys_time, current, hist.c_str()), rep);
-      if (current > S.end + 4. * eps * (std::fabs(S.start) + std::fabs(S.end)))
+      if (current > S.end + ttol)
         R.violation("C19:beyond-end:" + tag, fmt("time %.17g beyond end %.17g after [%s]", current, S.end, hist.c_str()), rep);
-      if (has_next != (n.cur < FULL))
-        R.violation("C19:has-next:" + tag, fmt("has_next=%d at integer time %" PRIu64 " after [%s]", (int)has_next, n.cur, hist.c_str()), rep);
+      if (has_next != (units < FULL))
+        R.violation("C19:has-next:" + tag, fmt("has_next=%d with %" PRIu64 "/2^63 of the total elapsed after [%s]", (int)has_next, units, hist.c_str()), rep);
       // informational: reference model = largest admissible power of two
       {
-        uint64_t ref = d.imax;
-        while (ref && d.c0 * (double)ref > r)
-          ref >>= 1;
-        while (ref && left % ref)
-          ref >>= 1;
-        if (ref != dt)
+        int jr = jmax;
+        while (jr < 63 && std::ldexp(total, -jr) > r)
+          ++jr;
+        while (jr < 63 && left % (1ull << (63 - jr)))
+          ++jr;
+        if (jr != j)
           ++refmodel_diff;
       }
-      if (!seen.count(nb)) {
-        seen.emplace(nb, Node{a, node.depth + 1, current, node.phys_sum + actual, node.nsteps + 1, hist});
+      auto it = seen.find(nb);
+      if (it == seen.end()) {
+        seen.emplace(nb, Node{a, units, node.depth + 1, current, node.phys_sum + actual, node.nsteps + 1, hist});
         frontier.push_back(nb);
         if (seen.size() % 97 == 1)
-          R.sample(fmt("{\"setting\": \"%s\", \"requests\": \"%s\", \"integer_time\": \"%" PRIu64 "\"}", tag.c_str(), hist.c_str(), n.cur));
+          R.sample(fmt("{\"setting\": \"%s\", \"requests\": \"%s\", \"elapsed_units_of_total/2^63\": \"%" PRIu64 "\"}", tag.c_str(), hist.c_str(), units));
+      } else if (it->second.units != units) {
+        R.violation("C19:state-time:" + tag, fmt("the same saved state is reached with %" PRIu64 " and %" PRIu64 " elapsed units after [%s]", it->second.units, units, hist.c_str()), rep);
       }
     }
   }
   if (S.maxdepth < 0 && !R.out_of_time()) {
     // complete reachable set explored: the end must be among the states
     if (nterminal != 1)
-      R.violation("C19:terminal:" + setting_str(S), fmt("%" PRIu64 " terminal states reachable", nterminal));
+      R.violation("C19:terminal:" + tag, fmt("%" PRIu64 " terminal states reachable", nterminal));
   }
 }
 
@@ -250,8 +236,7 @@ int main(int argc, char **argv) {
     for (char *tok = strtok(h, ","); tok; tok = strtok(nullptr, ",")) {
       double r = strtod(tok, nullptr), a, c;
       bool hn = t.advance(r, a, c);
-      Decoded d = decode(dump(t));
-      printf("  request %.17g -> actual %.17g time %.17g has_next %d integer %" PRIu64 "\n", r, a, c, (int)hn, d.cur);
+      printf("  request %.17g -> actual %.17g time %.17g has_next %d\n", r, a, c, (int)hn);
     }
     S.maxdepth = -1;
     settings.assign(1, S);
@@ -288,7 +273,7 @@ int main(int argc, char **argv) {
   R.set("traces_validated_against_impl", (double)trans);
   R.set("settings", (double)settings.size());
   R.set("steps_differing_from_largest_admissible_power_of_two(info)", (double)refdiff);
-  R.rule = "breadth-first search over the real TimeLine object: state = its 40-byte restart image, "
+  R.rule = "breadth-first search over the real TimeLine object: state = its restart image (opaque), observations = the values advance() returns, "
            "transitions = advance(r) for every r of the request alphabet; complete reachable set for "
            "settings with a positive minimum step, depth-bounded otherwise; non-trivial = transitions "
            "that moved the clock";
